@@ -23,7 +23,8 @@ def check(run):
         hs = hs[:: max(1, len(hs) // 240)]
     elif len(hs) > 6000:
         hs = hs[:: len(hs) // 6000]
-    scns = [inboundlib.scenario(h, [1, 2, 3]) for h in hs]
+    # every third script runs "dynamic": subscriptions made after each topic was published once, one removed before a last publish
+    scns = [inboundlib.scenario(h, [1, 2, 3], dynamic=(i % 3 == 2)) for i, h in enumerate(hs)]
     run.log("%d distribution scripts from TLC" % len(scns))
     tpath, crashes = brokerlib.execute(run, scns, "c14", shards=12)
     if crashes:
@@ -37,7 +38,8 @@ def check(run):
         "evaluations": len(scns),
         "distinct_nontrivial": faulty,
         "rule": "scenario = TLC-generated script of publishes (QoS 0/1/2) from publishers on nodes 1 and 2 to topics hosted on {1,2}, {2}, {1}, {2,3}, {} of three "
-                "real nodes, with failures of any destination's log or RPC toggled between steps; non-trivial = contains an injected failure",
+                "real nodes, with failures of any destination's log or RPC toggled between steps; in every third scenario the subscriptions are made only "
+                "after every topic has been published once, and one is removed before a last publish; non-trivial = contains an injected failure",
         "events_validated": nev, "trace_spec_states": tstates, "rejections": len(rejected),
         "samples": [hs[0], hs[len(hs) // 2], {"scenario": scns[-1]}],
     }, ["the publishing node's view of subscriptions is up to date (gossip is delivered between steps)",
